@@ -375,7 +375,7 @@ namespace
     }
     value exit___scalar(runtime& runtime, value::cref right)
     {
-        runtime.exit(static_cast<int>(std::round(*right.data<d_scalar>())));
+        runtime.exit(sqf::runtime::util::round_to_int(right.data<d_scalar, float>()));
         return {};
     }
     value respawn___(runtime& runtime)
